@@ -71,7 +71,7 @@ func (api API) getResource(ctx context.Context, id types.ResourceId) (*types.Res
 }
 
 func (api API) getResources(ctx context.Context, ids []types.ResourceId) ([]types.Resource, *types.Error) {
-	var ret []types.Resource
+	ret := make([]types.Resource, 0, len(ids))
 	for _, id := range ids {
 		if resourceType, ok := api.Schema.resourceTypes[id.Type]; ok {
 			if resource, err := resourceType.get(ctx, id); err != nil {
